@@ -33,25 +33,19 @@ IpgFix(c, ipg, gdc) ==          \* the ipg_retry loop
        itb  == CeilDiv(i2 * c.isz, c.bs)
    IN IF i2 * gdc < 12 THEN IpgFix(c, ipg + 8, gdc) ELSE <<i2, itb>>
 
-RECURSIVE Retry(_, _, _, _)
-Retry(c, blocks, bpg, fuel) ==
+\* One evaluation of the body of ext2fs_initialize's retry loop at (blocks, bpg): what the C code does next.
+\*   [k |-> "ipg"]                 inodes per group exceed blocksize*8: the code does bpg -= 8, blocks = requested, retry
+\*   [k |-> "trim", blocks |-> b]  the last group is too small: blocks -= rem, retry
+\*   [k |-> "err", err |-> e] / [k |-> "done", g |-> geometry]
+Body(c, blocks, bpg) ==
    LET first == IF c.bs = 1024 THEN 1 ELSE 0
        gdc   == CeilDiv(blocks - first, bpg)
        dpb   == c.bs \div (IF c.is64 THEN 64 ELSE 32)
        descb == CeilDiv(gdc, dpb)
        inodes == IF c.ninodes # 0 THEN c.ninodes ELSE (c.blocks * c.bs) \div c.iratio   \* mke2fs passes s_inodes_count computed from the *requested* size (or -N)
        ipg0  == CeilDiv(inodes, gdc)
-   IN IF gdc = 0 THEN [err |-> "TOOSMALL"]                  \* "if (fs->group_desc_count == 0) EXT2_ET_TOOSMALL"
-      ELSE IF fuel = 0 THEN [err |-> "loop"]
-      ELSE IF ipg0 > c.bs * 8 THEN
-           \* the C loop "bpg -= 8; blocks = requested; goto retry" in closed form (TLC recursion must stay shallow)
-           (LET f0 == IF c.bs = 1024 THEN 1 ELSE 0
-                Ok(b) == CeilDiv(inodes, CeilDiv(c.blocks - f0, b)) <= c.bs * 8
-                Ks == {k \in 1..(bpg \div 8) : bpg - 8 * k > 0 /\ Ok(bpg - 8 * k)}
-            IN IF Ks = {} THEN [err |-> "TOO_MANY_INODES"]
-               ELSE LET k == CHOOSE k \in Ks : \A j \in Ks : k <= j IN
-                    IF bpg - 8 * (k - 1) >= 256 THEN Retry(c, c.blocks, bpg - 8 * k, fuel - 1)
-                    ELSE [err |-> "TOO_MANY_INODES"])
+   IN IF gdc = 0 THEN [k |-> "err", err |-> "TOOSMALL"]                  \* "if (fs->group_desc_count == 0) EXT2_ET_TOOSMALL"
+      ELSE IF ipg0 > c.bs * 8 THEN [k |-> "ipg"]
       ELSE
       LET ipgc == Min(ipg0, 65536 - c.bs \div c.isz)
           fx   == IpgFix(c, ipgc, gdc)
@@ -63,15 +57,36 @@ Retry(c, blocks, bpg, fuel) ==
           hasbg == IF c.ss2 THEN TRUE ELSE BgHasSuper(gdc - 1, c.sparse, FALSE, <<0, 0>>)   \* mke2fs passes s_backup_bgs = {1, ~0}
           ovl  == 2 + itb + (IF hasbg THEN 1 + descb + rsv ELSE 0)
           rem  == (blocks - first) % bpg
-      IN IF ovh > bpg THEN [err |-> "TOO_MANY_INODES"]
-         ELSE IF gdc = 1 /\ rem # 0 /\ rem < ovl THEN [err |-> "TOOSMALL"]
-         ELSE IF rem # 0 /\ rem < ovl + 50 THEN Retry(c, blocks - rem, bpg, fuel - 1)
-         ELSE [err |-> "", blocks |-> blocks, first |-> first, bpg |-> bpg, gdc |-> gdc, ipg |-> ipg,
-               itb |-> itb, rsv |-> rsv, descb |-> descb, metabg |-> mbg, inodes |-> ipg * gdc,
-               backups |-> IF c.ss2 THEN {0, Min(1, gdc - 1), gdc - 1}
-                           ELSE {g \in 0..(gdc - 1) : BgHasSuper(g, c.sparse, FALSE, <<0, 0>>)}]
+      IN IF ovh > bpg THEN [k |-> "err", err |-> "TOO_MANY_INODES"]
+         ELSE IF gdc = 1 /\ rem # 0 /\ rem < ovl THEN [k |-> "err", err |-> "TOOSMALL"]
+         ELSE IF rem # 0 /\ rem < ovl + 50 THEN [k |-> "trim", blocks |-> blocks - rem]
+         ELSE [k |-> "done", g |->
+               [err |-> "", blocks |-> blocks, first |-> first, bpg |-> bpg, gdc |-> gdc, ipg |-> ipg,
+                itb |-> itb, rsv |-> rsv, descb |-> descb, metabg |-> mbg, inodes |-> ipg * gdc,
+                backups |-> IF c.ss2 THEN {0, Min(1, gdc - 1), gdc - 1}
+                            ELSE {g \in 0..(gdc - 1) : BgHasSuper(g, c.sparse, FALSE, <<0, 0>>)}]]
 
-Compute(c) == Retry(c, c.blocks, IF c.bpg # 0 THEN c.bpg ELSE Min(c.bs * 8, 65528), 400)
+\* What the loop makes of a group size p when it (re)starts at (requested blocks, p): a trim is followed by one more body
+\* evaluation (after a trim rem = 0, so the only ways on are done / err / ipg).
+AtBpg(c, p) ==
+   LET r1 == Body(c, c.blocks, p) IN
+   IF r1.k = "trim" THEN Body(c, r1.blocks, p) ELSE r1
+
+\* The C loop in closed form (TLC recursion must stay shallow and the loop can take hundreds of rounds on inode-dense
+\* configurations): every round that ends in "ipg" restarts at (requested blocks, bpg - 8), which is allowed while the
+\* current bpg >= 256; the result is the outcome at the first group size of the chain p0, p0 - 8, ... that does not end in "ipg".
+Retry(c, p0) ==
+   LET r0 == AtBpg(c, p0) IN
+   IF r0.k # "ipg" THEN (IF r0.k = "done" THEN r0.g ELSE [err |-> r0.err])
+   ELSE LET chain == {p0 - 8 * k : k \in 1..(p0 \div 8)}
+            reach == {p \in chain : p > 0 /\ p + 8 >= 256}                  \* the decrement to p happened at p + 8 >= 256
+            stop  == {p \in reach : AtBpg(c, p).k # "ipg"}
+        IN IF stop = {} THEN [err |-> "TOO_MANY_INODES"]
+           ELSE LET p == CHOOSE q \in stop : \A r \in stop : q >= r
+                    r == AtBpg(c, p)
+                IN IF r.k = "done" THEN r.g ELSE [err |-> r.err]
+
+Compute(c) == Retry(c, IF c.bpg # 0 THEN c.bpg ELSE Min(c.bs * 8, 65528))
 
 \* ------------------------------------------------------------------ arithmetic invariants (model-checked over the lattice)
 GeometryOK(c, g) ==
